@@ -259,6 +259,9 @@ func (w *watchers) handlersIngress() []*hdlr {
 		{
 			typ: &networking.IngressClass{},
 			res: types.ResourceIngressClass,
+			// ingress resources that started or stopped to be valid due to a change in their
+			// IngressClass do not have a notification of their own, nor are linked to it yet
+			full: true,
 			pr: []predicate.Predicate{
 				predicate.GenerationChangedPredicate{},
 				predicate.Funcs{
